@@ -153,12 +153,18 @@ class ServerConn:
         self.client_closed = False
         self.app = None
         p = factory()
+        # honour the ssl_* keyword arguments start_server passed to loop.create_server, as the event loop would
+        skw = {}
+        for srv in getattr(loop, "captured_servers", []):
+            if srv.factory is factory:
+                skw = {k: v for k, v in srv.kw.items() if k in ("ssl_handshake_timeout", "ssl_shutdown_timeout")}
+        if ssl_handshake_timeout is not None:
+            skw["ssl_handshake_timeout"] = ssl_handshake_timeout
         if sslctx is None:
             self.proto = p
         else:
             self.app = p
-            self.proto = sslproto.SSLProtocol(loop, p, sslctx, None, server_side=True,
-                                              ssl_handshake_timeout=ssl_handshake_timeout)
+            self.proto = sslproto.SSLProtocol(loop, p, sslctx, None, server_side=True, **skw)
         self.tcp.attach(self.proto)
 
     def _from_server(self, data: bytes):
@@ -227,7 +233,7 @@ class PeerConn:
         self.net = net
         self.peer = peer
         self.loop = loop
-        self.tls = MemTls(peer.ctx, server_side=True)
+        self.tls = MemTls(peer.ctx_for_connection(len(peer.conns)), server_side=True)
         self.tcp: FakeTcp | None = None
         self.received = bytearray()  # application bytes the nauyaca client transmitted
         self.raw_received = 0
@@ -363,6 +369,13 @@ class ScriptedPeer:
     def set_cert(self, cert: certs.Cert):
         self.cert = cert
         self.ctx = peer_server_ctx(cert)
+
+    def ctx_for_connection(self, index: int):
+        """cert_sequence[i] (if set) is the certificate presented on the i-th connection (last one repeats)."""
+        seq = getattr(self, "cert_sequence", None)
+        if not seq:
+            return self.ctx
+        return peer_server_ctx(seq[min(index, len(seq) - 1)])
 
 
 class MemNet:
